@@ -107,7 +107,7 @@ def main(argv=None):
     # ---- aggregate ----------------------------------------------------------
     agg = {'shapes': 0, 'paths': 0, 'obligations': 0, 'discharged': 0, 'syntactic': 0,
            'queries': 0, 'unsat': 0, 'sat': 0, 'unknown': 0, 'solver_s': 0.0,
-           'canaries': 0, 'canaries_fired': 0, 'raised_paths': 0, 'nontrivial': 0}
+           'canaries': 0, 'canaries_fired': 0, 'raised_paths': 0, 'nontrivial': 0, 'assumed_nonzero': 0}
     errors, inconclusive, findings, samples = [], [], [], []
     per_task = []
     for r in results:
@@ -118,7 +118,7 @@ def main(argv=None):
             if k in r:
                 agg[k] += r[k]
         st = r.get('stats') or {}
-        for k in ('queries', 'unsat', 'sat', 'unknown', 'solver_s', 'syntactic'):
+        for k in ('queries', 'unsat', 'sat', 'unknown', 'solver_s', 'syntactic', 'assumed_nonzero'):
             agg[k] += st.get(k, 0)
         inconclusive += [f"task {r['task']}: {x}" for x in r.get('inconclusive', [])]
         findings += r.get('findings', [])
@@ -181,6 +181,7 @@ def main(argv=None):
         'discharged_syntactically': agg['syntactic'],
         'queries': {'total': agg['queries'], 'unsat': agg['unsat'], 'sat': agg['sat'], 'unknown': agg['unknown']},
         'solver_s': round(agg['solver_s'], 2),
+        'divisions_assumed_nonzero': agg['assumed_nonzero'],
         'canaries': {'planted': agg['canaries'], 'refuted': agg['canaries_fired']},
         'samples': samples[:12] or ['(none)'],
         'exhaustive': bool(getattr(mod, 'EXHAUSTIVE', {}).get(tier, False)) if isinstance(getattr(mod, 'EXHAUSTIVE', {}), dict) else False,
